@@ -201,18 +201,18 @@ class Fl:
             hi_stable = any((hi < b[2] or (hi == b[2] and (b[3] or not hc))) and (b[0] < hi or b[0] == hi) for b in self.ivs)
             if not lo_stable and lo != NINF:
                 i = bisect.bisect_left(lm, lo)     # first landmark >= lo
-                if i < len(lm) and lm[i] == lo and lc:
-                    nlo = lo
+                if i < len(lm) and lm[i] == lo:
+                    pass                      # already at a landmark: keep the bound (open or closed) as it is
                 else:
                     nlo = lm[i - 1] if i > 0 else NINF
-                lo, lc = nlo, (nlo != NINF)
+                    lo, lc = nlo, (nlo != NINF)
             if not hi_stable and hi != INF:
                 i = bisect.bisect_right(lm, hi)    # first landmark > hi
-                if i > 0 and lm[i - 1] == hi and hc:
-                    nhi = hi
+                if i > 0 and lm[i - 1] == hi:
+                    pass
                 else:
                     nhi = lm[i] if i < len(lm) else INF
-                hi, hc = nhi, (nhi != INF)
+                    hi, hc = nhi, (nhi != INF)
             ivs.append((lo, lc, hi, hc))
         return Fl(ivs, j.pinf, j.ninf, j.nan, j.nz)
 
